@@ -45,6 +45,7 @@ def run(ctx):
     r143(ctx, bwd, variants, bs)
     r144(ctx)
     r145(ctx)
+    r146(ctx)
 
 
 def arms(ctx, body, variants):
@@ -267,3 +268,107 @@ def r145(ctx):
                        (kind == "None" and "None" in txt)
                 ctx.ob("R14.5", good, f"{b.name}/{fld}/value", f"`{b.name}` assigns {fld} = {txt}",
                        where=f"{b.file}:{s.line}", sample=f"{fld} = {txt}")
+
+
+def r146(ctx):
+    ctx.rule("R14.6", "change derivation is independent of the spent status it toggles: the PushListener callbacks (which "
+                      "re-derive a block's changes from the post-block state when the block is disconnected) never read, "
+                      "directly or through helpers, the fields written by the set_*_spent mutators or the swept heights")
+    p = ctx.prog
+    mon = [b for b in p.bodies.values() if b.d.krate == "lightning_signer" and b.file.endswith("monitor.rs")
+           and not R.is_test_util(b.name)]
+    # 1. footprint of the spent mutators and swept-height bookkeeping
+    F = set()
+    tuple_bool = False
+    for b in mon:
+        on = R.owner_name(p, b)
+        last = on.rsplit("::", 1)[-1]
+        if not (last.startswith("set_") and "spent" in last):
+            continue
+        fv = fnview(ctx, b, policy=False)
+        for bi in fv.live_blocks():
+            for s_ in b.stmts(bi):
+                for pr in s_.place.proj:
+                    if isinstance(pr, tuple) and pr[0] == "f":
+                        if pr[1] == "()" and pr[2] == "1" and "bool" in b.ty(s_.place.local):
+                            tuple_bool = True
+                        elif pr[1] != "()":
+                            F.add((pr[1].rsplit("::", 1)[-1], pr[2]))
+            t = b.term(bi)
+            if t.kind == "call" and t.call.callee and "IndexMut" in t.call.callee.name and t.call.args:
+                e = fv.expr(t.call.args[0])
+                for x in subexprs(e):
+                    if x[0] == "field":
+                        F.add((x[2].rsplit("::", 1)[-1], x[3]))
+    F |= {("State", "closing_swept_height"), ("State", "our_output_swept_height")}
+    F.discard(("ClosingOutpoints", "our_output"))
+    ctx.floor("R14.6", "spent-status footprint fields", len(F), 4)
+    ctx.ob("R14.6", tuple_bool, "footprint/our_output-flag", "set_our_output_spent no longer writes the (vout, spent) pair",
+           where="vls-core/src/monitor.rs", sample=sorted(F))
+    # 2. direct readers
+    def reads_footprint(b):
+        hits = []
+        def chk(pl, line):
+            if pl is None:
+                return
+            for pr in pl.proj:
+                if isinstance(pr, tuple) and pr[0] == "f":
+                    if (pr[1].rsplit("::", 1)[-1], pr[2]) in F:
+                        hits.append((f"{pr[1].rsplit('::', 1)[-1]}.{pr[2]}", line))
+                    if pr[1] == "()" and pr[2] == "1" and "(u32, bool)" in b.ty(pl.local):
+                        hits.append(("our_output.<spent flag>", line))
+        for bi in range(len(b.blocks)):
+            if b.cleanup[bi]:
+                continue
+            for s_ in b.stmts(bi):
+                if s_.kind != "a":
+                    continue
+                # reads only: operands / borrowed places on the right-hand side
+                for o in s_.rv.ops:
+                    chk(o.place, s_.line)
+                if s_.rv.place is not None and not (s_.rv.op in ("ref", "ptr") and s_.rv.a):
+                    chk(s_.rv.place, s_.line)
+            t = b.term(bi)
+            if t.kind == "call":
+                for a in t.call.args:
+                    chk(a.place, t.call.line)
+        return hits
+    direct = {}
+    for b in mon:
+        if b.mac and "derive" in b.mac:
+            continue
+        on = R.owner_name(p, b)
+        last = on.rsplit("::", 1)[-1]
+        if last.startswith("set_") and "spent" in last:
+            continue
+        h = reads_footprint(b)
+        if h:
+            direct[b.d.id] = (b, h)
+    # 3. PushListener callbacks and everything they call inside monitor.rs (except the forward application itself)
+    roots = [b for b in mon if "PushListener<" in R.owner_name(p, b) and "push_decoder::Listener" in R.owner_name(p, b)
+             or R.owner_name(p, b).endswith("PushListener::<'_>::is_not_ready_for_push")]
+    ctx.floor("R14.6", "PushListener callbacks", len({R.owner_name(p, b) for b in roots}), 5)
+    stop = ("::apply_forward_change", "::add_change")
+    for rb in roots:
+        seen, work, chain = set(), [(rb, [rb.name])], None
+        found = None
+        while work and not found:
+            b, path = work.pop()
+            if b.d.id in seen:
+                continue
+            seen.add(b.d.id)
+            if b.d.id in direct:
+                found = (path, direct[b.d.id][1])
+                break
+            for bi, c in b.calls():
+                for cal in list(p.possible_callees(c, b)) + [p.bodies[cd.id] for cd in c.cls if cd.id in p.bodies]:
+                    if not cal.file.endswith("monitor.rs") or cal.name.endswith(stop) or R.is_test_util(cal.name):
+                        continue
+                    if cal.mac and "derive" in cal.mac:
+                        continue
+                    work.append((cal, path + [cal.name]))
+        ctx.ob("R14.6", found is None, f"{R.owner_name(p, rb)}/reads-spent-status",
+               f"block-change detection `{rb.name}` depends on spent status "
+               f"{found[1][:2] if found else ''} via {' -> '.join(x.rsplit('::', 1)[-1] for x in (found[0] if found else []))}: "
+               f"re-deriving the change from the post-block state on disconnect will not reproduce it, so the undo is skipped",
+               where=f"{rb.file}:{rb.line}", sample=f"{len(seen)} functions reachable, none reads {sorted(F)[:3]}...")
